@@ -12,8 +12,8 @@ import numpy as np
 from common import req, close, relerr, TOL, run_driver
 
 META = {
-    'text': 'Theorem (Lean 4, over the reals, all T,S,P): below 40 C the density expression regenerated from seawater.py on every run IS the EOS-80 rational function of an independently typed coefficient table; check values and positivity/monotonicity theorems where closed (listed in evidence.theorems). The real code is compared with the Lean EOS-80 reference executed at Float on every sampled state, with the published check values, and for monotonicity/positivity.',
-    'note': 'Trusted: Lean kernel + 3 standard axioms; translator py2ir/ir2lean (validated every run by executing the generated definitions against seawater.py); real arithmetic as stand-in for IEEE doubles; monotonicity theorems still open are backed by sampling only and named as such in evidence.notes.',
+    'text': 'Theorems (Lean 4, over the reals) about the definitions regenerated from seawater.py on every run: below 40 C the density IS the EOS-80 rational function of an independently typed coefficient table (all T,S,P); the eight published EOS-80 check values are reproduced to half a unit of the last digit (S=0 exactly, S=35 through a proved bracket of 35^(3/2)); the density increases strictly with pressure on the oceanic box below 40 C; mu, sigma and the cold branch of k are positive on the oceanic range. The real code is compared with the Lean EOS-80 reference executed at Float on every sampled state, with the published check values, and for monotonicity/positivity.',
+    'note': 'Trusted: Lean kernel + 3 standard axioms; translator py2ir/ir2lean (validated every run by executing the generated definitions against seawater.py); real arithmetic as stand-in for IEEE doubles; still open and backed by sampling on the real code only: density increasing in S, everything on the 313-373 K hot-water branch of density, positivity of the hot branch of k, mu decreasing in T.',
     'technique': 'Lean 4 proof over a model regenerated from source by a translator + differential execution against the real code',
 }
 GEN = ['seawater']
@@ -35,7 +35,7 @@ CHECK = [
 
 def audit_files():
     return ['TamocV/Num.lean', 'TamocV/Real.lean', 'TamocV/Model/EOS80.lean', 'TamocV/Props/C13.lean',
-            'TamocV/Gen/SeawaterPy.lean']
+            'TamocV/Lemmas/Basic.lean', 'TamocV/Lemmas/C20.lean', 'TamocV/Lemmas/C13.lean', 'TamocV/Gen/SeawaterPy.lean']
 
 
 def gen_cases(ctx):
